@@ -13,6 +13,8 @@ import (
 type WebsocketTunnelConnection struct {
 	*websocket.Conn
 	closed bool
+	// pending holds the rest of a message that did not fit into the reader's buffer
+	pending []byte
 }
 
 func NewWebsocketTunnelConnection(conn *websocket.Conn) *WebsocketTunnelConnection {
@@ -22,6 +24,12 @@ func NewWebsocketTunnelConnection(conn *websocket.Conn) *WebsocketTunnelConnecti
 }
 
 func (wstc *WebsocketTunnelConnection) Read(p []byte) (int, error) {
+	if len(wstc.pending) > 0 {
+		n := copy(p, wstc.pending)
+		wstc.pending = wstc.pending[n:]
+		return n, nil
+	}
+
 	messageType, message, err := wstc.Conn.ReadMessage()
 	if messageType == websocket.CloseMessage || messageType == -1 {
 		return 0, io.EOF
@@ -31,14 +39,12 @@ func (wstc *WebsocketTunnelConnection) Read(p []byte) (int, error) {
 		return 0, errors.WithStack(err)
 	}
 
-	msgLen := len(message)
-	if len(p) < msgLen {
-		return 0, errors.Errorf("Buffer to small: message size is %v, but buffer size is %v", msgLen, len(p))
-	}
+	// A message may be larger than the reader's buffer (the peer writes up to buffers.BufferSize per
+	// message): hand out what fits and keep the rest for the next reads.
+	n := copy(p, message)
+	wstc.pending = message[n:]
 
-	copy(p, message)
-
-	return msgLen, nil
+	return n, nil
 }
 
 // Write will take a stream of bytes and send it over a websocket connection.
